@@ -832,9 +832,20 @@ def trip_cases(rng, quick):
 
 # ---------------------------------------------------------------- the generator
 
+def zst_cases(quick, rng):
+    """op 6: zero-sized-element leaves with lengths up to usize::MAX (finding F16: the total
+    length of a chain); the case list is C16's op 14 (tools/props/c16.py zst_cases)"""
+    from tools.props import c16
+    for c in c16.zst_cases(quick, rng):
+        assert c.startswith("(16 14 ")
+        yield "(2 6 " + c[len("(16 14 "):]
+
+
 def gen(tier, rng):
     quick = tier == "quick"
     seen = 0
+    for c in zst_cases(quick, rng):
+        yield c
     # 1. every single adaptor over every small shape
     for D in range(0, 4):
         maxlen = 3 if D <= 2 else 2
